@@ -75,7 +75,7 @@ impl Property for C02 {
     fn run_case(&self, cfg: &Cfg, i: u64, acc: &mut Acc) {
         let mut r = Rng::keyed(&[cfg.seed, 2, i]);
         let (label, body) = gen_stream(&mut r, i, false);
-        let end = if r.chance(1, 8) { StreamEnd::Error(std::io::ErrorKind::ConnectionReset) } else { StreamEnd::Eof };
+        let end = if r.chance(1, 8) { StreamEnd::Error(*r.pick(&[std::io::ErrorKind::ConnectionReset, std::io::ErrorKind::UnexpectedEof, std::io::ErrorKind::TimedOut, std::io::ErrorKind::Other])) } else { StreamEnd::Eof };
         let shash = hash_bytes(&body);
         acc.inc("streams");
         acc.inc(&format!("streams_{}", label));
